@@ -173,6 +173,7 @@ fn worker(id: &str, tier: Tier, seed: u64, start: u64, end: u64, stride: u64, de
         humsim::sim::install_panic_hook();
         let scn = p.generate(seed, idx, tier);
         if p.isolated() {
+            #[cfg(not(feature = "tk"))]
             props::c03::ANNOUNCE.store(true, std::sync::atomic::Ordering::SeqCst);
             let mut o = out.lock();
             writeln!(o, "A {}", idx).ok();
